@@ -48,6 +48,8 @@ class SymNP(types.ModuleType):
     def __init__(self, overrides=None):
         super().__init__('symnp')
         self.__dict__['_ov'] = dict(overrides or {})
+        for k, v in (overrides or {}).items():
+            self.__dict__[k] = v      # instance attribute wins over the class method
 
     def __getattr__(self, k):
         ov = self.__dict__.get('_ov', {})
